@@ -55,7 +55,7 @@ func vp8xPayload(flags byte, w, h int) []byte {
 }
 
 func genC16(t *rapid.T) *c16Case {
-	c := &c16Case{Source: rapid.SampledFrom([]string{"encode", "animenc", "riffgen-still", "riffgen-still", "riffgen-anim"}).Draw(t, "source")}
+	c := &c16Case{Source: rapid.SampledFrom([]string{"encode", "animenc", "muxer", "riffgen-still", "riffgen-still", "riffgen-anim"}).Draw(t, "source")}
 	pool := bitstreamPool()
 	drawUnknown := func() []byte {
 		n := rapid.IntRange(0, 9).Draw(t, "unkLen")
@@ -64,7 +64,7 @@ func genC16(t *rapid.T) *c16Case {
 	}
 	switch c.Source {
 	case "encode":
-		im := gen.DrawImg(t, gen.ImgCfg{MaxSide: 24})
+		im := gen.DrawImg(t, gen.ImgCfg{MaxSide: 32})
 		var o *gen.Opts
 		if rapid.Bool().Draw(t, "lossless") {
 			o = gen.DrawLosslessOpts(t)
@@ -90,6 +90,15 @@ func genC16(t *rapid.T) *c16Case {
 		}
 		c.File, c.Package = b, true
 		c.Desc = fmt.Sprint(s.Summary())
+	case "muxer":
+		// a Muxer history (C14's generator); kept when it assembles to a file inside C16's domain
+		mc := genC14(t)
+		data, still, ok := assembleC14(mc)
+		if !ok {
+			t.Skip("muxer history rejected or outside the domain")
+		}
+		c.File, c.Package = data, true
+		c.Desc = fmt.Sprintf("muxer ops=%d still=%v", len(mc.Ops), still)
 	case "riffgen-still":
 		e := pool[rapid.IntRange(0, len(pool)-1).Draw(t, "bs")]
 		lossless := e.Bitstream[0] == 0x2f
@@ -297,3 +306,84 @@ func layoutOf(data []byte) string {
 }
 
 func TestC16(t *testing.T) { core.Run(t, "C16", genC16, checkC16) }
+
+// assembleC14 replays a C14 operation list on a Muxer and returns the file when Assemble accepts it
+// and the result is inside C16's domain (for stills: canvas equals the picture size).
+func assembleC14(c *c14Case) (data []byte, still bool, ok bool) {
+	m := mux.NewMuxer()
+	nFrames, anyDur := 0, false
+	var first *c14Op
+	cw, ch := 0, 0
+	for i := range c.Ops {
+		op := &c.Ops[i]
+		switch op.Kind {
+		case "addframe":
+			d := op.Bitstream
+			if op.HasAlph {
+				pre := []byte("ALPH\x00\x00\x00\x00")
+				n := len(op.Alph)
+				pre[4], pre[5], pre[6], pre[7] = byte(n), byte(n>>8), byte(n>>16), byte(n>>24)
+				pre = append(pre, op.Alph...)
+				if n&1 == 1 {
+					pre = append(pre, 0)
+				}
+				d = append(pre, op.Bitstream...)
+			}
+			var fo *mux.FrameOptions
+			if !op.NilOpts {
+				fo = &mux.FrameOptions{Duration: op.Duration, OffsetX: op.OffX, OffsetY: op.OffY}
+				if op.BlendNone {
+					fo.BlendMode = mux.BlendNone
+				}
+				if op.DisposeBG {
+					fo.DisposeMode = mux.DisposeBackground
+				}
+				if op.Duration > 0 {
+					anyDur = true
+				}
+			}
+			if m.AddFrame(d, fo) != nil {
+				return nil, false, false
+			}
+			if first == nil {
+				first = op
+			}
+			nFrames++
+		case "setdispose":
+			m.SetFrameDisposeMode(op.Index, mux.DisposeMode(op.IVal))
+		case "setduration":
+			m.SetFrameDuration(op.Index, op.IVal)
+			if op.IVal > 0 && op.Index >= 0 && op.Index < nFrames {
+				anyDur = true
+			}
+		case "canvas":
+			m.SetCanvasSize(op.IVal, op.IVal2)
+			cw, ch = op.IVal, op.IVal2
+		case "loop":
+			m.SetLoopCount(op.IVal)
+		case "bg":
+			m.SetBackgroundColor(op.UVal)
+		case "icc":
+			m.SetICCProfile(op.Blob)
+		case "exif":
+			m.SetEXIF(op.Blob)
+		case "xmp":
+			m.SetXMP(op.Blob)
+		}
+	}
+	if nFrames == 0 || cw > 16383 || ch > 16383 {
+		return nil, false, false
+	}
+	still = nFrames == 1 && !anyDur
+	if still && cw > 0 && ch > 0 && (cw != first.W || ch != first.H) {
+		return nil, false, false
+	}
+	if still && !first.NilOpts && (first.OffX != 0 || first.OffY != 0) {
+		return nil, false, false // the muxer adds a still's offset to the canvas: canvas != picture
+	}
+	var buf bytes.Buffer
+	if m.Assemble(&buf) != nil {
+		return nil, false, false
+	}
+	return buf.Bytes(), still, true
+}
